@@ -2,7 +2,8 @@
 
 Line-based: cimport/decorator lines are dropped, cdef/cpdef signatures become `def`, typed declarations, assignments to
 typed C locals, typed arguments and return values go through coercions that implement C semantics for exactly the types
-this file uses (unsigned char, char, int, long, bint, double, Py_ssize_t, memoryviews, fixed arrays, <T> casts).
+this file uses and the ones a plausible edit would introduce (every C integer width and signedness on LP64, bint, double,
+float, memoryviews, fixed arrays, <T> casts, `cdef:` blocks, multi-declarations, `nogil` / `except` suffixes, `DEF`).
 Anything it does not recognise raises LaneUnavailable (machinery failure for the C-specific part, never a violation).
 Fidelity is established, where the generated C is fresh, by requiring lanes T and B to agree on every vector."""
 import array
@@ -61,7 +62,7 @@ def _co(t, v):
     return v
 
 
-_SIG = re.compile(r"^(\s*)(cpdef|cdef|def)\s+(inline\s+)?(.*?)(\w+)\s*\((.*)\)\s*:\s*$")
+_SIG = re.compile(r"^(\s*)(cpdef|cdef|def)\s+(inline\s+)?(.*?)(\w+)\s*\((.*)\)\s*(?:nogil|noexcept|except\s*\??\s*[-+\w.*]+|\s)*:\s*$")
 _DECL = re.compile(r"^(\s*)cdef\s+(.+?)\s*$")
 _ASSIGN = re.compile(r"^(\s*)([A-Za-z_]\w*)\s*(\+|-|\*|//|/|\^|\||&|>>|<<)?=(?!=)\s*(.+?)\s*$")
 _CAST = re.compile(r"<\s*(" + "|".join(sorted(SCALARS, key=len, reverse=True)) + r")\s*>\s*(.+)$")
@@ -85,9 +86,27 @@ def transliterate(src):
     out = []
     ftypes = {}         # per function: local name -> scalar C type
     cur = None
+    block = None        # indentation of an open `cdef:` block
     for n, raw in enumerate(src.split("\n"), 1):
         line = raw.rstrip()
         s = line.strip()
+        if block is not None:
+            ind = len(line) - len(line.lstrip())
+            if s and ind > block:
+                line = " " * block + "cdef " + s         # a declaration inside a `cdef:` block
+                s = line.strip()
+            elif s:
+                block = None
+        if s == "cdef:":
+            block = len(line) - len(line.lstrip())
+            out.append("%spass" % (" " * block))
+            continue
+        if re.match(r"^with\s+(nogil|gil)\s*:", s):
+            out.append(line[: len(line) - len(line.lstrip())] + "if True:")
+            continue
+        if re.match(r"^DEF\s+\w+\s*=", s):
+            out.append(line.replace("DEF ", "", 1))
+            continue
         if s.startswith("cimport ") or (s.startswith("from ") and " cimport " in s) or s.startswith("@cython"):
             continue
         if s.startswith("# cython:"):
@@ -126,15 +145,21 @@ def transliterate(src):
         m = _DECL.match(line)
         if m:
             indent, decl = m.groups()
-            if "=" not in decl and "," in decl:            # cdef long bits, mask
-                first = decl.split(",")[0].split()
-                ctype = " ".join(first[:-1])
+            if "," in decl and "(" not in decl and "[" not in decl:      # cdef long bits, mask / cdef int a = 0, b = 1 / cdef int i, j = 5
+                items = [x.strip() for x in decl.split(",")]
+                head = items[0].split("=")[0].split()
+                ctype = " ".join(head[:-1])
                 if ctype not in SCALARS:
                     raise LaneUnavailable("multi-declaration of type %r at line %d" % (ctype, n))
-                for nm in [first[-1]] + [x.strip() for x in decl.split(",")[1:]]:
+                items[0] = items[0][items[0].index(head[-1], len(ctype)):]
+                stmts = []
+                for part in items:
+                    nm, _, init = [x.strip() for x in part.partition("=")]
                     if indent:
                         ftypes[nm] = ctype
-                out.append("%spass" % indent)
+                    if init:
+                        stmts.append("%s = _co(%r, %s)" % (nm, ctype, init))
+                out.append(indent + ("; ".join(stmts) if stmts else "pass"))
                 continue
             ctype, name, init = _split_type(decl)
             if ctype in SCALARS:
